@@ -9,6 +9,7 @@ fn main() {
     match args.prop.as_str() {
         "C21" => props::c21::run(&args),
         "C12" => props::c12::run(&args),
+        "C13" => props::c13::run(&args),
         p => mcx::machinery_error(&format!("rt-store does not serve {p}")),
     }
 }
